@@ -84,7 +84,9 @@ Print Assumptions C09_equals_inlined_refuted_duplicate_return.
 
 (* ---- interface -------------------------------------------------------------------------------------- *)
 (* labels, order, defaults and hints of the inputs and the output labels of every macro instance, at
-   every depth, are those of its definition; the instance's inputs start at the defaults *)
+   every depth, are those of its OWN definition; the instance's inputs start at the defaults.  [build]
+   takes nothing but the definition: which other (parent) class was previewed or instantiated first plays
+   no role (the harness runs class-based derived definitions in both orders of first use against it) *)
 Theorem C09_interface : forall d l s v, build d l = Some (s, v) ->
   iface_ok d s /\ s_label_of s = l /\ v_ins v = map p_default (d_params d) /\
   (forall o, nth o (v_outs v) None = None).
